@@ -22,6 +22,8 @@ func init() {
 			{ID: "C09.2", Desc: "agreements: keyer, normaliser, heuristic table, codec", Run: ruleC09_2, MinSites: 4},
 			{ID: "C09.3", Desc: "file name is a pure function of the key", Run: ruleC09_3, MinSites: 1},
 			{ID: "C09.4", Desc: "the id looked up is the id stored", Run: ruleC09_4, MinSites: 2},
+			{ID: "C09.8", Desc: "the variant list read is the list handed to the miss/hit/store paths", Run: func(c *Ctx) { ruleIndexHandedOn(c, "C09.8") }, MinSites: 1},
+			{ID: "C09.7", Desc: "Expires-based lifetime is Expires minus Date (a shorter lifetime makes fresh entries miss)", Run: func(c *Ctx) { ruleExpiresMinusDate(c, "C09.7") }, MinSites: 1},
 			{ID: "C09.6", Desc: "values written to the JSON index survive the encoding (else the variant is never selected again)", Run: func(c *Ctx) { ruleIndexValuesUTF8Safe(c, "C09.6") }, MinSites: 1},
 			{ID: "C09.5", Desc: "synthesised Date is valid UTC (a wrong Date makes fresh entries look stale)", Run: func(c *Ctx) { ruleDateRepair(c, "C09.5") }, MinSites: 1},
 		},
